@@ -422,6 +422,8 @@ def structure_function_vk(seperation, r0, L0):
     """
     # x**(5/6) * K_5/6(x) evaluates to 0 * inf = NaN at x = 0 although its limit there is finite and
     # makes D_vk(0) = 0: evaluate the formula away from zero and put in the exact value afterwards
+    # (a list compared with 0 is just False: lists of separations need the conversion)
+    seperation = numpy.asarray(seperation)
     sep = numpy.where(seperation == 0, L0, seperation)
 
     ## theoretical structure function
